@@ -6,6 +6,7 @@ resolves ``self.m`` / ``super().m`` / ``Class.m`` / plain-name calls per
 *concrete* class.  Nothing is imported or executed.
 """
 import ast
+import copy
 import os
 
 from .astutil import AnalysisError, dotted, walk_local, is_name
@@ -16,6 +17,136 @@ MANDATORY_MODULES = [
     'remote_context', 'remote_pickle', 'utils',
     '_remote_pickle.remote_pickler_3_6', '_remote_pickle.state',
 ]
+
+
+# ---------------------------------------------------------------------------------------------------- wrapper inlining
+def absorb_private_helpers(modules, rounds=3):
+    """Resolve trivial wrappers before anything is analysed (Min et al.: treat a wrapper as what its body does).
+
+    A method H is *absorbed* - every call of it is replaced by its body (locals renamed), preceded by the marker call
+    `__pwsa_inlined__('H')` (a call is a landing point for an asynchronous exception, so the marker keeps that effect), and the
+    definition is dropped - when nothing but inlining can be meant by a call of it:
+      * the name is private (one leading underscore, no dunder) and is defined exactly once in the whole package (no override, no
+        namesake), undecorated, with `self` as its only parameter;
+      * its body has no `return <value>`, no early `return`, no yield/await, no nested function or class, no `super()`;
+      * every mention of the name in the package is a call `self.H()` without arguments that forms a whole expression statement
+        (it is never used as a value - thread target, callback - and never looked up through a string), and not inside H itself.
+    The rules then judge what the program does, not in which method a statement happens to sit: extracting a statement into such
+    a helper, or merging two branches into one, changes no verdict unless the helper's body really differs.
+    Returns the list of absorbed names (reported in the evidence)."""
+    absorbed = []
+    for _ in range(rounds):
+        defs = {}
+        strings = set()
+        for mod in modules.values():
+            for c in ast.walk(mod.tree):
+                if isinstance(c, ast.ClassDef):
+                    for st in c.body:
+                        if isinstance(st, (ast.FunctionDef, ast.AsyncFunctionDef)):
+                            defs.setdefault(st.name, []).append((mod, c, st))
+            for n in ast.walk(mod.tree):
+                if isinstance(n, ast.Constant) and isinstance(n.value, str):
+                    strings.add(n.value)
+                if isinstance(n, (ast.FunctionDef, ast.AsyncFunctionDef)):
+                    defs.setdefault(n.name, [])
+        # functions defined outside classes with the same name disqualify too
+        plain = {}
+        for mod in modules.values():
+            for n in ast.walk(mod.tree):
+                if isinstance(n, (ast.FunctionDef, ast.AsyncFunctionDef)):
+                    plain[n.name] = plain.get(n.name, 0) + 1
+        cands = {}
+        for name, lst in defs.items():
+            if len(lst) != 1 or plain.get(name, 0) != 1 or not name.startswith('_') or name.startswith('__') or name in strings:
+                continue
+            mod, c, f = lst[0]
+            a = f.args
+            if f.decorator_list or isinstance(f, ast.AsyncFunctionDef) or [x.arg for x in a.args] != ['self'] or a.posonlyargs or a.kwonlyargs or a.vararg or a.kwarg:
+                continue
+            body = [st for st in f.body if not (isinstance(st, ast.Expr) and isinstance(st.value, ast.Constant))]
+            if body and isinstance(body[-1], ast.Return) and body[-1].value is None:
+                body = body[:-1]
+            if not body:
+                continue
+            bad = False
+            for st in body:
+                for n in ast.walk(st):
+                    if isinstance(n, (ast.Return, ast.Yield, ast.YieldFrom, ast.Await, ast.FunctionDef, ast.AsyncFunctionDef, ast.ClassDef, ast.Lambda, ast.Global, ast.Nonlocal)):
+                        bad = True
+                    if isinstance(n, ast.Name) and n.id == 'super':
+                        bad = True
+                    if isinstance(n, ast.Attribute) and n.attr == name:
+                        bad = True          # recursive
+            if not bad:
+                cands[name] = (mod, c, f, body)
+        if not cands:
+            break
+        # reference census
+        sites = {name: [] for name in cands}
+        for mod in modules.values():
+            parents = {}
+            for n in ast.walk(mod.tree):
+                for ch in ast.iter_child_nodes(n):
+                    parents[ch] = n
+            for n in ast.walk(mod.tree):
+                if isinstance(n, ast.Attribute) and n.attr in cands:
+                    call = parents.get(n)
+                    stmt = parents.get(call)
+                    ok = isinstance(n.value, ast.Name) and n.value.id == 'self' and isinstance(call, ast.Call) and call.func is n and not call.args and not call.keywords \
+                        and isinstance(stmt, ast.Expr) and stmt.value is call
+                    if ok:
+                        holder = parents.get(stmt)
+                        sites[n.attr].append((holder, stmt))
+                    else:
+                        sites[n.attr] = None if sites[n.attr] is not None else None
+                        cands[n.attr] = None
+                if isinstance(n, ast.Name) and n.id in cands:
+                    cands[n.id] = None
+        done_any = False
+        for name, cand in list(cands.items()):
+            if cand is None or not sites.get(name):
+                continue
+            mod, c, f, body = cand
+            local_names = {x.id for st in body for x in ast.walk(st) if isinstance(x, ast.Name) and isinstance(x.ctx, (ast.Store, ast.Del))} | \
+                          {h.name for st in body for h in ast.walk(st) if isinstance(h, ast.ExceptHandler) and h.name}
+            for holder, stmt in sites[name]:
+                new = copy.deepcopy(body)
+                for st in new:
+                    for x in ast.walk(st):
+                        if isinstance(x, ast.Name) and x.id in local_names:
+                            x.id = f'{x.id}__{name}'
+                        if isinstance(x, ast.ExceptHandler) and x.name in local_names:
+                            x.name = f'{x.name}__{name}'
+                # keep source order meaningful for rules that compare positions: the inlined statements get fractional line numbers between
+                # the call site and the next line (their real position is kept in orig_lineno for reports)
+                first = min((x.lineno for st in new for x in ast.walk(st) if hasattr(x, 'lineno')), default=stmt.lineno)
+                for st in new:
+                    for x in ast.walk(st):
+                        if hasattr(x, 'lineno'):
+                            x.orig_lineno = getattr(x, 'orig_lineno', x.lineno)
+                            x.lineno = stmt.lineno + (x.lineno - first + 1) / 10000.0
+                        if getattr(x, 'end_lineno', None) is not None:
+                            x.end_lineno = stmt.lineno + (x.end_lineno - first + 1) / 10000.0
+                marker = ast.Expr(value=ast.Call(func=ast.Name(id='__pwsa_inlined__', ctx=ast.Load()), args=[ast.Constant(value=name)], keywords=[]))
+                ast.copy_location(marker, stmt)
+                ast.fix_missing_locations(marker)
+                for field in ('body', 'orelse', 'finalbody'):
+                    lst = getattr(holder, field, None)
+                    if isinstance(lst, list) and any(x is stmt for x in lst):
+                        i = [k for k, x in enumerate(lst) if x is stmt][0]
+                        # entering the helper is a landing point of its own only if its first statement is not one already (a landing on the
+                        # call of H and a landing before the first call inside H cut the same thing)
+                        first_is_landing = any(isinstance(x, ast.Call) for x in ast.walk(new[0])) and not isinstance(new[0], (ast.If, ast.While, ast.For, ast.Try, ast.With))
+                        lst[i:i + 1] = ([] if first_is_landing else [marker]) + new
+                        break
+            c.body = [st for st in c.body if st is not f]
+            if not c.body:
+                c.body = [ast.Pass()]
+            absorbed.append(f'{c.name}.{name}')
+            done_any = True
+        if not done_any:
+            break
+    return absorbed
 
 
 class Module:
@@ -220,6 +351,7 @@ class Program:
         for m in MANDATORY_MODULES:
             if f'{self.package}.{m}' not in self.modules:
                 raise AnalysisError(f'mandatory module {self.package}.{m} is missing')
+        self.absorbed = absorb_private_helpers(self.modules)
         for mod in self.modules.values():
             self._index_module(mod)
         for cls in list(self.classes.values()):
